@@ -157,6 +157,10 @@ class OMPTaskloopTrans(ParallelLoopTrans):
     >>> # print(schedule.view())
 
     '''
+    # This directive always parallelises the loop: the 'sequential' option
+    # (which switches off the dependence analysis) is not supported.
+    _supports_sequential = False
+
     def __init__(self, grainsize=None, num_tasks=None, nogroup=False):
         self._grainsize = None
         self._num_tasks = None
